@@ -13,7 +13,8 @@ ASSUMPTIONS = ["FS.listdir returns the names of the direct entries; FS.isdir is 
 
 def c1(ctx):
     fwd.fwd_kwargs(ctx, floor=8)
-    fwd.fwd_options(ctx, ["filesystem", "ignore_duplicate", "strict"], floor=13, skip_callees=["simfile:_detect_ssc"])
+    fwd.fwd_options(ctx, ["filesystem", "ignore_duplicate", "strict"], floor=10, skip_callees=["simfile:_detect_ssc"],
+                    scope=[f.fq for f in ctx.p.nontest_functions() if f.fq not in ("simfile:loads", "simfile:mutate")])
 
 
 def c2(ctx):
